@@ -28,7 +28,7 @@ BASE = {
     "str": ["a", "b", "c", "d"], "date": [D1, D2, D3, D1], "datetime": [T1, T2, T3, T1], "object": [1, "a", 2.5, b"x"],
 }
 KIND = {"bool": bool, "int": int, "float": float, "complex": complex, "str": str, "date": date, "datetime": datetime, "object": object}
-SCALARS = [True, 7, 7.5, 7.0, -0.0, 7j, "z", b"q", D3, T3, None]      # 7.0 / -0.0: integral-valued floats are floats
+SCALARS = [True, False, 0, "", 7, 7.5, 7.0, -0.0, 7j, "z", b"q", D3, T3, None]      # 7.0 / -0.0: integral-valued floats are floats
 NUM = [bool, int, float, complex]
 PROMOTE_OK = {(int, float), (int, complex), (float, complex), (date, datetime)}
 
